@@ -18,7 +18,10 @@ def sentinel : Auth Float := ⟨negInf, negInf, negInf, negInf, 0⟩
 def pNet : P Net := do
   let flips ← seq nat
   let locks ← seq (seq nat)
-  pure ⟨fun i => flips.getD i 0, fun i => locks.getD i []⟩
+  -- array-backed lookups (the model only sees the two functions)
+  let fa := flips.toArray
+  let la := locks.toArray
+  pure ⟨fun i => fa.getD i 0, fun i => la.getD i []⟩
 
 def pAuth : P (Auth Float) := do
   let tr ← nat; let ae ← float; let ax ← float; let ce ← float; let cx ← float
